@@ -231,7 +231,26 @@ func genCase(t *rapid.T) Case {
 				if size < 4<<s.Shift {
 					s.Shift = 0
 				}
-				s.Off, s.Count = genRange(t, size, 4<<s.Shift, 4, 1280)
+				s.W = rapid.SampledFrom([]int{0, 0, 2, 4}).Draw(t, "storewidth")
+				for s.W > 1 && size < (4*s.W)<<s.Shift {
+					s.W /= 2
+				}
+				s.Off, s.Count = genRange(t, size, (4*s.width())<<s.Shift, 4, 1280)
+				if w := s.W; w > 1 && size > pageSize+4*w && rapid.Bool().Draw(t, "straddle") {
+					// element m of the range starts 4..4(w-1) bytes before a page boundary: its store crosses it
+					bnd := pageSize * rapid.IntRange(1, (size-4*w)/pageSize).Draw(t, "straddle-page")
+					m := rapid.IntRange(0, 3).Draw(t, "straddle-elem")
+					off := bnd - 4*rapid.IntRange(1, w-1).Draw(t, "straddle-dwords") - 4*w*(m<<s.Shift)
+					if off >= 0 {
+						cnt := m + 1 + rapid.IntRange(0, 40).Draw(t, "straddle-more")
+						for cnt > m+1 && off+4*w*((cnt-1)<<s.Shift)+4*w > size {
+							cnt--
+						}
+						if off+4*w*((cnt-1)<<s.Shift)+4*w <= size {
+							s.Off, s.Count = off, cnt
+						}
+					}
+				}
 				s.Seed = rapid.Uint32().Draw(t, "k")
 				s.Wait = rapid.Bool().Draw(t, "wait")
 				s.WG = rapid.SampledFrom([]int{64, 64, 128, 256}).Draw(t, "wg")
